@@ -134,7 +134,9 @@ class Firmware:
         idx = self.tx_index
         self.tx_index += 1
         corrupted = idx in self.corrupt
-        self.transmissions.append((idx, n, body, corrupted, good))
+        status = "corrupt" if (corrupted or not good) else \
+            ("sequence" if (self.last_n is not None and n != self.last_n + 1) else "ok")
+        self.transmissions.append((idx, n, body, corrupted, good, status))
         if corrupted or not good:
             exp = (self.last_n if self.last_n is not None else -1) + 1
             self._reply(f"Error:checksum mismatch, Last Line: {exp - 1}")
